@@ -41,7 +41,8 @@ pub fn run_c04(p: &Params) -> Report {
     }
     let n = p.budget(16_000, 800_000);
     for i in 0..n {
-        scenario_c04(p.shard_seed(0x04_0000 + i), &mut rep);
+        let seed = p.shard_seed(0x04_0000 + i);
+        crate::util::guarded(&mut rep, seed, |rep| scenario_c04(seed, rep));
     }
     rep
 }
@@ -89,7 +90,8 @@ pub fn run_c13(p: &Params) -> Report {
     }
     let n = p.budget(16_000, 600_000);
     for i in 0..n {
-        scenario_c13(p.shard_seed(0x13_0000 + i), &mut rep);
+        let seed = p.shard_seed(0x13_0000 + i);
+        crate::util::guarded(&mut rep, seed, |rep| scenario_c13(seed, rep));
     }
     rep
 }
@@ -122,7 +124,8 @@ pub fn run_c19(p: &Params) -> Report {
     }
     let n = p.budget(600, 60_000);
     for i in 0..n {
-        scenario_c19(p.shard_seed(0x19_0000 + i), &mut rep);
+        let seed = p.shard_seed(0x19_0000 + i);
+        crate::util::guarded(&mut rep, seed, |rep| scenario_c19(seed, rep));
     }
     rep
 }
